@@ -27,12 +27,13 @@ RULE = ('generated designed meshes (power / PSD / PSW equalisation, ROADM add-dr
         'probe on a fresh copy. Non-trivial: a request with a threshold within 0.5 dB of its metric, or an automatic '
         'request with >=2 candidate modes of which some are feasible and some not. Distinct: hash of (topology, '
         'library, request).')
-ASSUMPTIONS = ['cases whose rounded metric equals the threshold are not generated / not judged',
+ASSUMPTIONS = ['a rounded metric equal to threshold + margin is judged for the fixed mode of one-directional requests only '
+               '(accepted: "at least"); in the adversarial / automatic-selection cases it is not generated / not judged',
                'the fixed-mode evaluation on a fresh deep copy of the designed network is the reference for what a '
                'mode achieves on a route', 'figures compared to 1e-6 dB']
 REQUIRED_COUNTERS = {'receiver_gsnr_checks': 60, 'penalty_checks': 60, 'fixed_verdict_checks': 60,
                      'auto_selection_checks': 20, 'thresholds_within_half_db': 30, 'penalty_out_of_table': 2,
-                     'worst_channel_is_not_lowest_gsnr': 2}
+                     'worst_channel_is_not_lowest_gsnr': 2, 'fixed_verdict_on_threshold_checks': 20}
 CASE_TIMEOUT = {'quick': 300, 'thorough': 600}
 TRX = 'vfTrx'
 ALT = {}
@@ -324,6 +325,42 @@ def run_case(case, ctx):
                 check_receiver(ctx, ej2, tj, prop[0], m, f'fixed {fmt} {a}->{z}')
             if abs(round(probes[fmt]['f'], 2) - thr[fmt]) <= 0.5 + 1e-9:
                 ctx.nontrivial((P.digest(tj), P.digest(trx2), a, z, fmt, spacing, bidir))
+        if ctx.violations:
+            return
+        # ---- fixed mode, threshold + margin exactly equal to the rounded worst-channel metric: "at least" accepts
+        if not bidir:
+            for m in trx2['mode']:
+                fmt = m['format']
+                v = probes.get(fmt, {}).get('f')
+                if v is None or math.isinf(v):
+                    continue
+                base = round(v, 2)
+                if abs(v - base) > 0.004:              # not next to a rounding tie of the metric itself
+                    continue
+                osnr = base - margin
+                for _ in range(8):
+                    if osnr + margin == base:
+                        break
+                    osnr = float(np.nextafter(osnr, osnr + (base - (osnr + margin))))
+                if osnr + margin != base:
+                    continue
+                ej3 = deepcopy(ej2)
+                for m3 in next(t for t in ej3['Transceiver'] if t['type_variety'] == TRX)['mode']:
+                    if m3['format'] == fmt:
+                        m3['OSNR'] = osnr
+                req = S.request('e', a, z, trx_type=TRX, trx_mode=fmt, spacing=spacing, bidir=False, max_nb=nb)
+                eqp, net, rqs, prop, rprop, res = run_planning(ej3, network, [req])
+                blocked = getattr(rqs[0], 'blocking_reason', None)
+                if not prop[0] or blocked not in (None, 'MODE_NOT_FEASIBLE'):
+                    break
+                rx = prop[0][-1]
+                if round(float(np.min(rx.snr_01nm - rx.total_penalty)), 2) != base:
+                    break                               # (the metric of this run is not the probed one: not judged)
+                ctx.count('fixed_verdict_on_threshold_checks')
+                if blocked is not None:
+                    ctx.violation('fixed-mode-verdict', f'{fmt} {a}->{z}: worst channel metric {base} equals '
+                                  f'threshold+margin {osnr + margin!r} ("at least") but the request is blocked ({blocked})')
+                break
         if ctx.violations:
             return
         # ---- automatic selection
